@@ -198,7 +198,7 @@ PROPS["C12"] = dict(
           "promotion / other random placements with short walks steered towards mates, 16 classic mates and their "
           "mirrors, corpus; default and positional engines; distinct_nontrivial = distinct positions that have a mate "
           "in one"),
-    floor=dict(any={"evaluations": 3000, "mate-in-one-positions-judged": 150, "mating-moves:1": 50, "mating-moves:>1": 50, "engine-reuse-mate-lines": 200, "special-mate:pinned-piece-captures-pinner-mate": 4000, "special-mate:interposition-near-mate": 9000,
+    floor=dict(any={"evaluations": 3000, "mate-in-one-positions-judged": 150, "mating-moves:1": 50, "mating-moves:>1": 50, "engine-reuse-mate-lines": 200, "special-mate:pinned-piece-captures-pinner-mate": 4000, "special-mate:interposition-near-mate": 5000,
                     "mating-capture": 20, "near-miss:check-but-no-mate": 500, "mate-in-one-claims": 150}),
     watchdog=dict(quick=1200, thorough=10800),
     assumptions=[MODEL_ASSUMPTION, CHK_ASSUMPTION, HOOK_ASSUMPTION],
